@@ -15,21 +15,33 @@ Record hres := {
   h_handles_help : bool
 }.
 
-(* token.isdigit() or token.replace(".", "").isdigit() *)
-Definition py_isdigit (s : str) : bool :=
-  match s with [] => false | _ => forallb (fun c => in_ranges c PY_DIGIT) s end.
-Definition numeric_arg (s : str) : bool := py_isdigit s || py_isdigit (remove_ch 46 s).
+Fixpoint assoc_flags (k : str) (l : list (str * list str)) : list str :=
+  match l with [] => [] | (a, b) :: r => if str_eqb a k then b else assoc_flags k r end.
+Fixpoint assoc_nat (k : str) (l : list (str * nat)) : nat :=
+  match l with [] => O | (a, b) :: r => if str_eqb a k then b else assoc_nat k r end.
 
-(* the loop that skips a wrapper's numeric arguments and flags *)
-Fixpoint skip_wrapper_args (ts : list str) : list str :=
+(* "-" + token[-1] *)
+Definition last_flag (t : str) : str := match rev t with c :: _ => [45; c] | [] => [45] end.
+
+(* the loop that skips a wrapper's own options: "--" ends them, an option of [with_arg] takes the
+   next word (also as the last letter of a short cluster), any other word starting with "-" (longer
+   than "-") is an option without argument *)
+Fixpoint skip_wrapper_opts (with_arg : list str) (ts : list str) : list str :=
   match ts with
   | [] => []
   | t :: r =>
-      if numeric_arg t then skip_wrapper_args r
-      else if prefixb [45] t && negb (str_eqb t [45;45]) then skip_wrapper_args r
-      else if str_eqb t [45;45] then r
+      if str_eqb t [45;45] then r
+      else if mem_str t with_arg then match r with [] => [] | _ :: r' => skip_wrapper_opts with_arg r' end
+      else if prefixb [45] t && Nat.ltb 1 (length t) then
+        if negb (prefixb [45;45] t) && mem_str (last_flag t) with_arg
+        then match r with [] => [] | _ :: r' => skip_wrapper_opts with_arg r' end
+        else skip_wrapper_opts with_arg r
       else ts
   end.
+
+(* ... then the wrapper's own operands (timeout DURATION) *)
+Definition skip_wrapper_args (base : str) (ts : list str) : list str :=
+  skipn (assoc_nat base WRAPPER_OPERANDS) (skip_wrapper_opts (assoc_flags base WRAPPER_FLAGS_WITH_ARG) ts).
 
 (* _is_version_or_help *)
 Definition is_help (tokens : list str) : bool :=
@@ -67,7 +79,7 @@ Section Ladder.
     let base := match tokens with b :: _ => b | [] => [] end in
     if mem_str base WRAPPER_COMMANDS && Nat.ltb 1 (length tokens) then
       if str_eqb base $"command" && mem_str (nth 1 tokens []) COMMAND_V_FLAGS then Allow
-      else match skip_wrapper_args (tl tokens) with
+      else match skip_wrapper_args base (tl tokens) with
            | [] => Ask
            | inner => recurse inner
            end
